@@ -61,6 +61,37 @@ def render_with_intersections(schema, fmt, package, orig_render):
     return head + "\n\n".join(c.hoisted + bodies) + "\n"
 
 
+def root_of(entry):
+    """The name the root object carries in the IR the jennies consume: the catalogue's root, or what the schema transformations
+    of the entry's pipeline configuration make of it (EmitSchemaMC!PEntry, `rootAs`)."""
+    return entry.get("rootAs") or entry["schema"]["root"]
+
+
+def passes_yaml(entry, pkg):
+    """The schema transformations of a catalogue entry as a compiler-passes file of the REAL pipeline configuration."""
+    y = "passes:\n"
+    for p in entry["passes"]:
+        if p["k"] == "schema_set_entry_point":
+            y += "  - schema_set_entry_point:\n      package: %s\n      entry_point: %s\n" % (pkg, p["obj"])
+        elif p["k"] == "rename_object":
+            y += "  - rename_object:\n      from: %s.%s\n      to: %s\n" % (pkg, p["obj"], p["to"])
+        else:
+            raise core.Inconclusive("unknown schema transformation %s" % p["k"])
+    return y
+
+
+def make_yaml_hook(batch):
+    def hook(sid, fmt, pkg, ytext):
+        entry = batch.cat[sid]
+        if not entry.get("passes"):
+            return ytext
+        path = os.path.join(batch.gen_dir, "_in", pkg + ".passes.yaml")
+        open(path, "w").write(passes_yaml(entry, pkg))
+        batch.units[pkg]["passes_text"] = passes_yaml(entry, pkg)
+        return ytext + "transformations:\n  schemas:\n    - '%s'\n" % path
+    return hook
+
+
 def compact_of(sid):
     """The output option `compact` belongs to the enumerated configuration: it alternates with the schema id."""
     return sid % 2 == 1
@@ -297,7 +328,15 @@ def generate_irroute(ctx, batch, ids):
             u["status"], u["why"] = "not_expressible", "ir: %s" % e
             continue
         u["text"] = json.dumps(ir)
-        jobs.append({"id": pkg, "root": gen, "compact": u["compact"], "ir": ir})
+        job = {"id": pkg, "root": gen, "compact": u["compact"], "ir": ir}
+        if entry.get("passes"):
+            # the schema transformations of the pipeline configuration, loaded by cog's own loader of compiler-passes files
+            pp = os.path.join(gen, "_in", pkg + ".passes.yaml")
+            open(pp, "w").write(passes_yaml(entry, pkg))
+            u["passes_text"] = passes_yaml(entry, pkg)
+            u["type"] = pkg + "." + root_of(entry)
+            job["passes"] = pp
+        jobs.append(job)
     if not jobs:
         return
     d = ctx.sub("irroute")
@@ -578,6 +617,7 @@ def run(ctx):
     sc.render = lambda schema, fmt, package: render_with_intersections(schema, fmt, package, orig_render)
     orig_yaml = sc.pipeline_yaml
     sc.pipeline_yaml = lambda fmt, path, package, go_flags, extra=(), aux=(): orig_yaml(fmt, path, package, go_flags, _langs(int(package[1:5])), aux)
+    batch.yaml_hook = make_yaml_hook(batch)
     try:
         sc.generate(ctx, batch, None, EXTRA_LANGUAGES, formats)
     finally:
@@ -585,12 +625,17 @@ def run(ctx):
         sc.render = orig_render
     for u in batch.units.values():
         u["compact"] = compact_of(u["id"])
+        if cat[u["id"]].get("passes"):
+            u["type"] = u["pkg"] + "." + root_of(cat[u["id"]])
     generate_xpkg(ctx, batch, xids)
     batch.ids = ids
     rerun_schema_only(ctx, batch)
     if not replay or replay["replay"].get("input_format") == "ir":
         generate_irroute(ctx, batch, [i for i in ids if cat[i]["pos"] in ("fixed", "c12", "c12t")])
-    sc.build(ctx, batch)
+    if any(u["status"] == "generated" for u in batch.units.values()):
+        sc.build(ctx, batch)
+    else:
+        batch.timing.setdefault("build_s", 0.0)      # replay of a unit of the IR-built route: no Go package to compile
     dump_ir(ctx, batch)
     status0 = collections.Counter(u["status"] for u in batch.units.values())
     core.log("batch: %d schemas, %d units %s; gen %.1fs build %.1fs" % (len(ids), len(batch.units), dict(status0),
@@ -671,10 +716,15 @@ def run(ctx):
         if "term" not in u or u["status"] not in ("ok", "not_executable", "schema_only"):
             continue
         executable = u["status"] == "ok"     # packages that do not compile: only the documents themselves (raw) are validated
-        root = cat[u["id"]]["schema"]["root"]
+        root = root_of(cat[u["id"]])
         S = sc.defs_of(u["term"])
         if root not in S:
             stats["unit:ir_without_root"] += 1
+            continue
+        if any(r not in S for d in u["term"]["defs"] for r in ec.refs_of(d["t"])):
+            # the IR itself refers to objects it does not hold (an input parser lost them): no value of the generated types can be
+            # judged against it; the emitted documents are still judged (ref-resolves, names, round trip)
+            stats["unit:ir_with_dangling_references"] += 1
             continue
         lst, seen = [], set()
         items = [("doc", c, recs.get("%s/%d" % (u["pkg"], c["n"]))) for c in cases[u["id"]] if c["accepts"]] if executable else []
@@ -726,7 +776,7 @@ def run(ctx):
         if "json" not in rec:
             continue
         u = rec["unit"]
-        root = cat[u["id"]]["schema"]["root"]
+        root = root_of(cat[u["id"]])
         elist = encs.get(u["pkg"], []) if rec["which"] == "main" else []
         key = "%d" % i
         if rec["fmt"] == "jsonschema":
@@ -764,6 +814,8 @@ def run(ctx):
         base_replay = {"schema_id": u["id"], "leaf": entry["leaf"], "pos": entry["pos"], "schema": entry["schema"],
                        "foreign": entry["foreign"], "input_format": u["fmt"], "emitted_format": fmt, "package": rec["pkgname"],
                        "input_text": u.get("text"), "emitted_text": rec.get("text")}
+        if u.get("passes_text"):
+            base_replay["schema_transformations"] = u["passes_text"]
 
         def fail(clause, cls, what, extra=None):
             r = dict(base_replay)
@@ -831,6 +883,11 @@ def run(ctx):
                 stats["roundtrip:objects_compared"] += len(present)
                 stats["roundtrip:objects_not_declared_by_parser"] += len(exp) - len(present)
                 rds = {("rt-" + c, pth, w) for (c, pth, w) in ec.doc_diffs(present, {"defs": got})}
+                # objects the parser CAN reach (the IR has an entry point, the object is reachable from it) must come back
+                reach = ec.reachable(term, term["root"]) if rec["tpkg"] == "" else set()
+                lost = sorted({e["name"] for e in exp if e["src"] in reach and e["name"] not in gnames})
+                stats["roundtrip:objects_reachable_from_entry_point"] += sum(1 for e in exp if e["src"] in reach)
+                rds |= {("rt-names", (n,), "object") for n in lost}
                 reparsed.append(rterm)
                 trace.append(({"kind": "rt", "si": si_of(u), "ri": len(reparsed), "pkg": rec["tpkg"]}, rds, ("rt", i)))
                 per_clause["%s/roundtrip" % fmt] += 1
@@ -896,7 +953,7 @@ def run(ctx):
         elist = encs.get(u["pkg"], [])
         if not elist:
             continue
-        root = entry["schema"]["root"]
+        root = root_of(entry)
         if fmt == "jsonschema":
             verdicts = list(zip(jsres[key]["accepts"], jsres[key]["errs"]))
         else:
